@@ -34,7 +34,7 @@ def run(run, replay=None):
     traces = []
     n = 0
     # (1) every attribute x every candidate value at every container position of a small tree
-    for rep in range(2 if quick else 12):
+    for rep in range(2 if quick else 6):
         for lvl_ci_fi in ((0, 0), (1, 0), (1, 1), (2, 1)):
             h = domdriver.History(cat)
             tid = 1
@@ -53,7 +53,7 @@ def run(run, replay=None):
             traces.append(h.trace(n, CHK))
             n += 1
     # (2) unknown / invalid constructor keywords
-    for _ in range(60 if quick else 1500):
+    for _ in range(60 if quick else 800):
         h = domdriver.History(cat)
         bad = rng.choice([{'bogus': 1}, {'encoding': 5}, {'preamble_indent': 'x'}, {'meta': []}, {'diff': 'str'},
                           {'version': '2.0'}, {'preamble_mimetype': 'text/html'}, {'Encoding': 'utf-8'}, {}])
@@ -72,7 +72,7 @@ def run(run, replay=None):
         run.count(('ctor', repr(sorted(bad))), nontrivial=bool(bad))
         n += 1
     # (3) equality: twins and single-field perturbations
-    for _ in range(150 if quick else 4000):
+    for _ in range(150 if quick else 1500):
         seed = rng.randrange(1 << 30)
         h = domdriver.History(cat)
         a = domgen.build_tree(h, random.Random(seed), via_attrs=True)
